@@ -754,9 +754,27 @@ def eval_flatten(spec, drv):
 EVAL = {"C08": eval_uniquify, "C09": eval_flatten}
 
 
+class BuildRefused(Exception):
+    pass
+
+
 def evaluate(pid, spec, drv):
+    from engines import xform_gen as G
+    spec = json.loads(json.dumps(spec))
+    # a spec the API refuses to build (e.g. sibling identifiers that collide under the EDIF policy) is
+    # not an input of the transformation
     try:
-        return EVAL[pid](json.loads(json.dumps(spec)), drv)
+        G.build(spec)
+    except RecursionError:
+        R = Result()
+        R.skipped = "recursion"
+        return R
+    except Exception:  # noqa
+        R = Result()
+        R.skipped = "build-refused"
+        return R
+    try:
+        return EVAL[pid](spec, drv)
     except RecursionError:
         R = Result()
         R.skipped = "recursion"
@@ -928,11 +946,13 @@ def edif_policy_variant(rng, s, kind):
     for D in s["defs"]:
         D["data"]["EDIF.identifier"] = ident("Dx")
         for K in D["children"]:
-            if rng.random() < 0.6:
+            if rng.random() < 0.6 or "EDIF.identifier" in K["data"]:
                 K["data"]["EDIF.identifier"] = ident("Ix")
         for C in D["cables"]:
-            if rng.random() < 0.6:
+            if rng.random() < 0.6 or "EDIF.identifier" in C["data"]:
                 C["data"]["EDIF.identifier"] = ident("Cx")
+        for P in D["ports"]:
+            P["data"].pop("EDIF.identifier", None)
     kind += "+edif"
     r = rng.random()
     shared = [D for D in s["defs"] if D["children"] or D["cables"]]
